@@ -295,7 +295,7 @@ def norm_findings(reply, names):
     for e in reply.get("events", []):
         if "report" in e:
             r = e["report"]
-            msg = re.sub(r"\b(?:[UVZP][_@]\d+_\d+|hc\d+)\b", "COMP", r["message"])
+            msg = re.sub(r"\b(?:[UVZPW][_@#]\d+_\d+|hc\d+)\b", "COMP", r["message"])
             msg = re.sub(r"\[(?:i|anon_var[_@]\d+_\d+)\]", "[IDX]", msg)
             out.append((r["id"], msg))
     return sorted(out)
